@@ -132,6 +132,25 @@ Proof.
     + inversion H; reflexivity.
 Qed.
 
+Theorem monitor_obs_exec evs : forall (y yf : sys) n l,
+  monitor_obs c bsz cache_size A_eqb y evs = (n, yf, l) -> yf = exec y l.
+Proof.
+  induction evs as [|[e nd] more IH]; intros y yf n l H; cbn [monitor_obs] in H.
+  - inversion H; reflexivity.
+  - destruct (mon_event c bsz cache_size A_eqb y e) as [[y1 chs]|] eqn:E.
+    + destruct (zlen (dets y1) =? nd).
+      * destruct (monitor_obs c bsz cache_size A_eqb y1 more) as [[n1 y2] l2] eqn:E2.
+        inversion H; subst. rewrite exec_app. apply mon_event_exec in E. subst y1.
+        eapply IH; exact E2.
+      * inversion H; reflexivity.
+    + inversion H; reflexivity.
+Qed.
+
+Theorem monitor_obs_reachable fs nobs ws s_old evs n yf l :
+  monitor_obs c bsz cache_size A_eqb (init_sys fs nobs ws s_old) evs = (n, yf, l) ->
+  WorkersSafety.reachable c bsz cache_size fs nobs ws s_old yf.
+Proof. intros H. exists l. eapply monitor_obs_exec; exact H. Qed.
+
 (** the state the monitor ends in is reachable: the invariants and final-state
     theorems of C12-C14 apply to it *)
 Theorem monitor_reachable fs nobs ws s_old evs n yf l :
